@@ -508,6 +508,87 @@ func bindAnswerReaction(t *Trace) bool {
 	return sends >= 1
 }
 
+// listFloatingIPs: the only source of the returned list is `client.….FloatingIPs().List(…)`; nothing that smells of a
+// cache (informer, lister, indexer, store) is called, and every non-error return hands out that call's result
+func listsApiserver(t *Trace) bool {
+	list := ""
+	for _, e := range t.Events {
+		if e.Kind != "call" {
+			continue
+		}
+		for _, bad := range []string{"Informer", "Lister", "Indexer", "GetStore", "HasSynced"} {
+			if strings.Contains(e.Text, bad) {
+				return false
+			}
+		}
+		if strings.HasPrefix(e.Text, "R.client.GalaxyV1alpha1().FloatingIPs().List(") {
+			list = e.Text
+		}
+	}
+	if list == "" {
+		return false
+	}
+	okReturn := false
+	for _, e := range t.Events {
+		if e.Kind != "return" {
+			continue
+		}
+		switch {
+		case strings.HasPrefix(e.Text, "return nil,"):
+		case e.Text == "return "+list+"#1,nil", e.Text == "return "+list+"#1,"+list+"#2", e.Text == "return "+list:
+			okReturn = true
+		default:
+			return false
+		}
+	}
+	return okReturn
+}
+
+// allocateIP: the reply (`Common.IPInfos`) is built by appending, unconditionally and in index order, the entries of
+// the list `ByKeyAndIPRanges(key, <requested ranges>)` returned (queried again after the allocation) - request order
+func replyInRequestOrder(t *Trace) bool {
+	v := ""
+	for _, e := range t.Events {
+		if e.Kind == "assign" && e.Helper == "" {
+			if i := strings.Index(e.Text, ".Common.IPInfos="); i >= 0 {
+				v = e.Text[i+len(".Common.IPInfos="):]
+			}
+		}
+	}
+	if v == "" {
+		return false
+	}
+	x, n := "", 0
+	for _, e := range t.Events {
+		if e.Kind == "assign" && strings.HasPrefix(e.Text, v+"=") {
+			n++
+			if e.Loop == 0 || e.Text != v+"=append("+v+",el("+e.LoopRange+").IPInfo)" || len(relConds(e.Path, e.LoopStart)) != 0 {
+				return false
+			}
+			x = e.LoopRange
+		}
+	}
+	if n != 1 {
+		return false
+	}
+	query := "R.ipam.ByKeyAndIPRanges(P0,"
+	if strings.HasPrefix(x, query) {
+		return strings.HasSuffix(x, ")#1")
+	}
+	// a variable: everything it is ever assigned is that query's list (or its first element when no range is asked)
+	asg := 0
+	for _, e := range t.Events {
+		if e.Kind == "assign" && strings.HasPrefix(e.Text, x+"=") {
+			asg++
+			rhs := e.Text[len(x)+1:]
+			if !strings.HasPrefix(rhs, query) || !(strings.HasSuffix(rhs, ")#1") || strings.HasSuffix(rhs, ")#1[:1]")) {
+				return false
+			}
+		}
+	}
+	return asg >= 1 && strings.HasPrefix(x, "V")
+}
+
 func checklistSkipsNonPodKeys(t *Trace) bool {
 	ok := false
 	for _, e := range t.Events {
@@ -545,6 +626,7 @@ func facts(trace tracer, bd, rs, fl, fp, pf, ic, ev *fg.Parsed) (string, error) 
 	}
 	present, whole := bindUidGuard(tAlloc)
 	fmt.Fprintf(&b, "/-- allocateIP: refuses to reuse an IP stored under another non-empty UID before allocating / assigning / updating -/\ndef bindChecksUID : Bool := %s\n", fg.LeanBool(present))
+	fmt.Fprintf(&b, "/-- allocateIP: the binding annotation's ipinfos are the entries of ByKeyAndIPRanges(key, requested ranges) - queried again after the allocation - appended in index order, unconditionally: request order -/\ndef bindReplyInRequestOrder : Bool := %s\n", fg.LeanBool(replyInRequestOrder(tAlloc)))
 	fmt.Fprintf(&b, "/-- allocateIP: that check ranges over ALL records of the key (ByKeyAndIPRanges(key, nil)), not only the requested ranges -/\ndef bindUidGuardCoversWholeKey : Bool := %s\n", fg.LeanBool(whole))
 
 	tRel, err := trace(bd, "FloatingIPPlugin", "Release")
